@@ -14,11 +14,12 @@
    (u32 in pallas-network, u16 in pallas-network2) = parameter [pb] below.
 
    Conventions: integers are [Z]; byte strings / text / raw CBOR are [list Z];
-   [AnyCbor] is the raw byte string it wraps (its decoder is [Decoder::skip] +
-   slice = the strict item decoder of the core, re-encoded); a [HashMap]/[BTreeMap]
+   [AnyCbor] is the raw byte string it wraps; its decoder is [Decoder::skip] + the consumed
+   slice = [d_skip_slice], the core's exact transcription of minicbor's skip loop (laxer than
+   a strict item decoder on malformed input); a [HashMap]/[BTreeMap]
    is its strictly key-sorted association list (iteration order of
    [keys().sorted()] / of the BTreeMap), inserts are [bt_insert]. *)
-From PV Require Import Lib.Base Cbor.Item Cbor.Enc Cbor.Dec Cbor.Api.
+From PV Require Import Lib.Base Cbor.Item Cbor.Enc Cbor.Dec Cbor.Api Cbor.Skip.
 Open Scope Z_scope.
 
 Notation "' pat <- c1 ;; c2" :=
@@ -37,15 +38,16 @@ Definition in_u (b n : Z) : bool := (0 <=? n) && (n <? b).
 Definition wf_bytes (b : list Z) : bool := bytes_wfb b && (len b <? u64b).
 (* a Rust [String] *)
 Definition wf_text (s : list Z) : bool := wf_bytes s && utf8_valid s.
-(* an [AnyCbor] that holds exactly one well-formed item *)
-Definition is_item (raw : list Z) : bool := match decode_all raw with DOk _ => true | _ => false end.
+(* an [AnyCbor] that holds exactly one well-formed item (of a size whose double fits u64: the
+   counters of Decoder::skip saturate beyond) *)
+Definition is_item (raw : list Z) : bool :=
+  match decode_all raw with DOk _ => true | _ => false end && (2 * len raw + 2 <? u64_max).
 
 Definition len_is (l : option Z) (k : Z) : bool :=
   match l with Some n => n =? k | None => false end.
 
 (* AnyCbor::decode: d.skip() and keep the consumed slice *)
-Definition d_raw (bs : list Z) : dres (list Z * list Z) :=
-  '(i, r) <- decode bs ;; DOk (encode_item i, r).
+Definition d_raw (bs : list Z) : dres (list Z * list Z) := d_skip_slice bs.
 
 (* e.tag(IanaTag::Cbor)?; e.bytes(b)? *)
 Definition e_cbor_bytes (b : list Z) : list Z := e_tag 24 ++ e_bytes b.
@@ -223,7 +225,7 @@ Definition enc_blockc (b : list Z) : list Z := e_cbor_bytes b.
 Definition dec_blockc (bs : list Z) : dres (list Z * list Z) := d_anytag_bytes bs.
 (* SkippedContent: encodes null, decodes by skipping one item *)
 Definition enc_skipped (_ : unit) : list Z := e_null.
-Definition dec_skipped (bs : list Z) : dres (unit * list Z) := '(_, r) <- decode bs ;; DOk (tt, r).
+Definition dec_skipped (bs : list Z) : dres (unit * list Z) := dbind (d_skip bs) (fun r => DOk (tt, r)).
 
 Definition csh_enc := cs_enc enc_header.
 Definition csh_dec := cs_dec dec_header.
